@@ -243,6 +243,14 @@ R13 = {
  "C12": "every buffer stored into m.chunk has capacity chunkSize",
 }
 
+# Clauses added in round 15 (DESIGN.md §10.14).
+R15 = {
+ "C03": "the recover-to-error converter is deferred before (dominates) every call that can reach an explicit panic",
+ "C08": "every scan that stores its counter does so on beating the running best (start row, start layer, end cell)",
+ "C14": "the k-mer scanner reads only the sequence it is given",
+ "C19": "a chunk count obtained by division is behind a test that the set is not empty",
+}
+
 NOT_APPLICABLE = {
 }
 
@@ -285,6 +293,10 @@ def main():
                 tech = tech + "; " + R13[pid]
                 text = text + " Round 13 (DESIGN §10.12) adds: " + R13[pid] + "."
                 ref = ref + ", §10.12"
+            if pid in R15:
+                tech = tech + "; " + R15[pid]
+                text = text + " Round 15 (DESIGN §10.14) adds: " + R15[pid] + "."
+                ref = ref + ", §10.14"
             text = text + " The thorough tier also replays the independently written behaviour-preserving refactorings of /verif/benign (DESIGN §10.8, §10.9, §10.11, §10.13) and fails if one of them is reported."
             checks.append({
                 "property_id": pid,
